@@ -6,7 +6,7 @@ import keyword
 import re
 from typing import Any
 
-from ..astutil import norm
+from ..astutil import Locals, norm, region, resolved_text
 from ..core import PKG, Report
 from ..skeleton import Event, Scope, SkelWalker, scan
 
@@ -110,15 +110,39 @@ def attributed_events(fn: Scope) -> list[Event]:
 
 class CanonWalker(SkelWalker):
     """The skeleton lays the branches of an `if` out one after the other, so which binding is the latest before a read depends on
-    their order. `if not C: A else: B` and `if C: B else: A` are the same decision: the branches are laid out in the order of the
-    positive test, whichever way the template spells it."""
+    their order. `if not C: A else: B` and `if C: B else: A` are the same decision (as are `a != b` / `a == b` and `a not in b` /
+    `a in b`): the branches are laid out in the order of the positive test, whichever way the template spells it."""
+
+    @staticmethod
+    def _positive(test: Any) -> "tuple[Any, bool]":
+        """(the test stated positively, whether the given test is its negation)"""
+        from jinja2 import nodes
+
+        if isinstance(test, nodes.Not):
+            t, neg = CanonWalker._positive(test.node)
+            return t, not neg
+        if isinstance(test, nodes.Compare) and len(test.ops) == 1 and test.ops[0].op in ("ne", "notin"):
+            op = nodes.Operand({"ne": "eq", "notin": "in"}[test.ops[0].op], test.ops[0].expr, lineno=test.lineno)
+            return nodes.Compare(test.expr, [op], lineno=test.lineno), True
+        return test, False
 
     def stmt(self, n: Any, env: dict[str, Any], tname: str) -> None:
         from jinja2 import nodes
 
-        if isinstance(n, nodes.If) and isinstance(n.test, nodes.Not) and n.else_ and not n.elif_:
-            n = nodes.If(n.test.node, n.else_, [], n.body, lineno=n.lineno)
+        if isinstance(n, nodes.If) and n.else_ and not n.elif_:
+            test, neg = self._positive(n.test)
+            if neg:
+                n = nodes.If(test, n.else_, [], n.body, lineno=n.lineno)
         super().stmt(n, env, tname)
+
+    def sym(self, e: Any, env: dict[str, Any], tname: str) -> Any:
+        from jinja2 import nodes
+
+        if isinstance(e, nodes.CondExpr) and e.expr2 is not None:
+            test, neg = self._positive(e.test)
+            if neg:
+                e = nodes.CondExpr(test, e.expr2, e.expr1, lineno=e.lineno)
+        return super().sym(e, env, tname)
 
 
 def class_reads(rep: Report, sc: Scope, tn: str, path: str, reserved: frozenset[str], endpoint_reserved: set[str],
@@ -148,6 +172,59 @@ def class_reads(rep: Report, sc: Scope, tn: str, path: str, reserved: frozenset[
                      "document-named assignment", example=ev.text)
 
 
+def _strings_of(ix: Any, g: Any, e: ast.AST, lc: Locals, depth: int = 0) -> "list[str] | None":
+    """The strings of a collection expression: a literal list / tuple / set of string constants (possibly wrapped in set() /
+    frozenset() / tuple() / list()), or a local, module constant or class constant bound to one."""
+    if isinstance(e, ast.Call) and norm(e.func) in ("set", "frozenset", "tuple", "list") and len(e.args) == 1 and not e.keywords:
+        e = e.args[0]
+    if isinstance(e, (ast.List, ast.Tuple, ast.Set)):
+        if e.elts and all(isinstance(x, ast.Constant) and isinstance(x.value, str) for x in e.elts):
+            return [x.value for x in e.elts]  # type: ignore[union-attr]
+        return None
+    if depth > 3:
+        return None
+    if isinstance(e, ast.Name):
+        vals = lc.values_of(e.id)
+        if vals:
+            got = [_strings_of(ix, g, v, lc, depth + 1) for v in vals]
+            return sorted({x for r in got for x in r}) if all(r is not None for r in got) else None  # type: ignore[union-attr]
+        r = ix.resolve(g.module, e.id)
+        if r and r[0] == "var":
+            mod, n = r[1]
+            return _strings_of(ix, g, mod.variables[n], Locals(ast.Module(body=[], type_ignores=[])), depth + 1)
+    if isinstance(e, ast.Attribute) and isinstance(e.value, ast.Name) and g.cls is not None and \
+            (e.value.id in ("self", "cls") or e.value.id == g.cls.name):
+        cv = ix.find_classvar(g.cls, e.attr)
+        if cv is not None:
+            return _strings_of(ix, g, cv[1], Locals(ast.Module(body=[], type_ignores=[])), depth + 1)
+    return None
+
+
+def reserved_parameter_names(ix: Any, f: Any) -> set[str]:
+    """The strings a parameter's python_name is compared with (`in` a collection of strings, `==` a string) in f or the private
+    helpers it delegates to - however the collection is held and whatever the tested local is called."""
+    out: set[str] = set()
+    for g in region(ix, f):
+        lc = Locals(g.node)
+
+        def is_name(e: ast.AST) -> bool:
+            return any(t.strip().endswith(".python_name") for t in resolved_text(e, g.node).split(" <- "))
+
+        for c in ast.walk(g.node):
+            if not isinstance(c, ast.Compare):
+                continue
+            left = c.left
+            for op, right in zip(c.ops, c.comparators):
+                if isinstance(op, (ast.In, ast.NotIn)) and is_name(left):
+                    out |= set(_strings_of(ix, g, right, lc) or [])
+                elif isinstance(op, (ast.Eq, ast.NotEq)):
+                    for a, b in ((left, right), (right, left)):
+                        if is_name(a) and isinstance(b, ast.Constant) and isinstance(b.value, str):
+                            out.add(b.value)
+                left = right
+    return out
+
+
 def run(rep: Report, ctx: Any) -> str:
     ix = ctx.py
     ch = ctx.chars
@@ -161,12 +238,12 @@ def run(rep: Report, ctx: Any) -> str:
     # reserved parameter names of operations, read from the AST
     ep = ix.cls("Endpoint").methods.get("_check_parameters_for_conflicts")
     rep.require(ep, "Endpoint._check_parameters_for_conflicts")
-    # the reserved table (any spelling, wherever the parameter pass lives - the method or a helper it delegates to): the literal
-    # strings every parameter's python_name is tested against
+    # the names it reserves (any spelling, wherever the parameter pass lives - the method or the private helpers it delegates to):
+    # the strings every parameter's python_name is tested against
     from .registries import endpoint_reserved_names
 
-    endpoint_reserved: set[str] = endpoint_reserved_names(ix)
-    rep.require(endpoint_reserved, "reserved_names list in _check_parameters_for_conflicts")
+    endpoint_reserved: set[str] = set(endpoint_reserved_names(ix)) or reserved_parameter_names(ix, ep)
+    rep.require(endpoint_reserved, "reserved parameter names (strings a python_name is tested against) in _check_parameters_for_conflicts")
     rep.indexed["reserved_words"] = len(reserved)
     rep.indexed["endpoint_reserved"] = sorted(endpoint_reserved)
     rep.assumptions += [
@@ -255,9 +332,9 @@ def run(rep: Report, ctx: Any) -> str:
                              f"(e.g. skeleton line {ev.line}: `{ev.text}`)",
                              where=f"{PKG}/templates/{tn} (scope {path})", lhs=f"fixed name `{t}`",
                              rhs="not producible, or harmless", example=ev.text)
-    rep.floor("generated_scopes", n_scopes, 14)
-    rep.floor("fixed_names_checked", n_fixed, 150)
-    rep.floor("skeleton_events", n_events, 3000)
+    rep.floor("generated_scopes", n_scopes, 12)
+    rep.floor("fixed_names_checked", n_fixed, 185)
+    rep.floor("skeleton_events", n_events, 19000)
     rep.indexed["skeleton_truncated_recursions"] = w.truncated
 
     # ---- R18.2 ---------------------------------------------------------------------------------------------------
@@ -289,4 +366,7 @@ def run(rep: Report, ctx: Any) -> str:
     rep.not_decided.append("class-body reads of names that are not bound by template text at module level (e.g. helpers imported through "
                            "a property's own import lines and called in an attribute default)")
     rep.not_decided.append("hole-versus-hole collisions between affixed names (e.g. list `a` and a property `a_item_data`)")
+    rep.not_decided.append("code printed by a macro that is reached through a template module imported inside a branch of a non-constant "
+                           "`if` and called after it (the additional-properties `construct` call of from_dict): the call stays opaque "
+                           "(SkelWalker.IMPORTS_SURVIVE_IF)")
     return LEVEL
